@@ -123,7 +123,7 @@ extern bool g_table_store_seen;               // an instrumented store hit the t
 extern char g_table_store_site[96], g_table_store_where[128];
 
 // ---------------------------------------------------------------- allocator seam
-struct AllocInfo { uint32_t id; uint32_t size; int task; int op; int nth; uintptr_t site0, site1; };
+struct AllocInfo { uint32_t id; uint32_t size; int task; int op; int nth; uintptr_t site0, site1; int op_kind; };
 size_t live_count();
 void live_snapshot(std::vector<std::pair<void*, AllocInfo>>& out);
 const AllocInfo* live_find(const void* p);
